@@ -6,7 +6,7 @@ from props import engine_common as ec
 from props import c01
 
 PID = "C03"
-LEAN_MODULES = ["QbiceVerif.Props.C03"]
+LEAN_MODULES = ["QbiceVerif.Props.C03", "QbiceVerif.Props.NonVacuity.C03"]
 DRIVER = "drv_engine"
 HARNESS_BIN = "engine"
 PARTIAL = [
@@ -17,6 +17,10 @@ PARTIAL = [
     "core_requery_executes_nothing and core_refresh_reexecutes_all_externals hold for all kinds. Missing: dynamic "
     "projections read by projections (C03_exec_justified_full_statement stays a def); there the rule is enforced by "
     "the harness oracle on the implementation and by equality of executor-invocation multisets with both models.",
+    "core_exec_justified_total_partial: from an Inv state with all inputs set the user's request IS .ok and its "
+    "executions are pairwise distinct and each is a first computation or justified by an observed dependency whose "
+    "from-scratch value changed (Shape p); the other C03 theorems keep the premise '= .ok', which C01's totality "
+    "theorems discharge for well-formed histories (HistOK).",
 ]
 ASSUMPTIONS = c01.ASSUMPTIONS + ["no cancellation (the property excludes it)"]
 TRUSTED_EXTRA = c01.TRUSTED_EXTRA
@@ -38,6 +42,8 @@ def run(ctx):
             res.disagreements.append({"model": "full as-is", **d})
         for d in a["core_disagree"]:
             res.disagreements.append({"model": "core", **d})
+        for d in a["state_disagree"][:3]:
+            res.disagreements.append({"tie": "state digest, full as-is model", **d})
     res.distribution["c03_oracle_failures_by_sig"] = {}
     for f in res.oracle_failures:
         res.distribution["c03_oracle_failures_by_sig"][f["sig"]] = res.distribution["c03_oracle_failures_by_sig"].get(f["sig"], 0) + 1
